@@ -216,6 +216,10 @@ func marshalRoundTrip(t vlib.TB, c *caseCtx) {
 	vlib.NonTrivial("roundtrip/"+name, "marshal-roundtrip", []byte("m"), c.kseed, c.eseed)
 }
 
+// lightTamper: in the exhaustive sweeps only the cheap part of the oracle runs (one decapsulation,
+// not the honest secret, exact rejection value where a reference exists).
+var lightTamper bool
+
 // tamper evaluates one altered ciphertext; alt describes it.
 func tamper(t vlib.TB, c *caseCtx, ct2 []byte, alt string, otherSK kem.PrivateKey, validCT bool) {
 	s := c.si.s
@@ -230,7 +234,11 @@ func tamper(t vlib.TB, c *caseCtx, ct2 []byte, alt string, otherSK kem.PrivateKe
 	var e1, e2 error
 	if p, st := vlib.Catch(func() {
 		r1, e1 = s.Decapsulate(c.sk, ct2)
-		r2, e2 = s.Decapsulate(c.sk, ct2)
+		if lightTamper {
+			r2, e2 = r1, e1
+		} else {
+			r2, e2 = s.Decapsulate(c.sk, ct2)
+		}
 	}); p != nil {
 		vlib.Report(t, "C01/panic/"+name+"/Decapsulate/"+vlib.PanicClass(p), fmt.Sprintf("alt=%s ct=%s panic=%v\n%s", alt, vlib.Hex(ct2), p, st))
 		return
@@ -295,6 +303,10 @@ func tamper(t vlib.TB, c *caseCtx, ct2 []byte, alt string, otherSK kem.PrivateKe
 		}
 		if want != nil && !bytes.Equal(want, r1) {
 			vlib.Report(t, "C01/implicit-rejection/"+name+"/value", fmt.Sprintf("alt=%s: rejection secret %x, specification %x", alt, r1, want))
+			return
+		}
+		if lightTamper {
+			vlib.Class(sub, "implicit-rejection-value-checked")
 			return
 		}
 		// (M) depends on the private key
@@ -404,13 +416,13 @@ func TestC01(t *testing.T) {
 	}
 }
 
-// TestC01AllBitFlips: every single-bit flip of one honest ciphertext per scheme
-// (thorough tier; sharded by bit index). FrodoKEM is stratified.
+// TestC01AllBitFlips: every single-bit flip of one honest ciphertext per scheme (both tiers;
+// sharded by bit index in thorough). FrodoKEM is stratified.
 func TestC01AllBitFlips(t *testing.T) {
 	defer vlib.Done()
-	if !vlib.Thorough() {
-		t.Skip("thorough only")
-	}
+	// quick: the cheap part of the oracle on every flip (FrodoKEM: 200 positions); thorough: the full oracle, sharded
+	lightTamper = !vlib.Thorough()
+	defer func() { lightTamper = false }()
 	for _, si := range allSchemes() {
 		s := si.s
 		kseed := make([]byte, s.SeedSize())
@@ -427,7 +439,11 @@ func TestC01AllBitFlips(t *testing.T) {
 		_, osk := s.DeriveKeyPair(oseed)
 		nbits := 8 * len(c.ct)
 		var idx []int
-		if si.implicit == "frodo" {
+		if si.implicit == "frodo" && !vlib.Thorough() {
+			for i := 0; i < 100; i++ {
+				idx = append(idx, i*7%512, nbits-1-(i*13%512))
+			}
+		} else if si.implicit == "frodo" {
 			for i := 0; i < 64*8; i++ {
 				idx = append(idx, i, nbits-1-i)
 			}
